@@ -249,3 +249,26 @@ def diff_cases(rng, n):
         c = rng.choice([None, None] + edge) if rng.random() < 0.7 else rng.randint(0, 300)
         ra = rng.randint(-1, 1)
         yield (kinds, gaps, T, c, ra)
+
+
+# ------------------------------------------------------------------ count dimension: long quiet (or busy) periods before the cancellation / deadline
+from harness import sizes as _sizes  # noqa: E402
+
+
+def late(k, off, mode, g, lim=410, real=False):
+    """n = c-1, c, c+1 polling intervals pass (c: integer constants of the source) before the event; off = symbolic
+    offset inside the next interval.  mode 0: cancel after n quiet polls; 1: a notification at tick g, then cancel
+    after n polls; 2: deadline after n quiet polls (no cancel); 3: response after n quiet polls"""
+    n = _sizes.pick(_sizes.size_cases(lim), k)
+    at = n * POLL + off
+    if mode == 0:
+        return _run((), [], at + 3 * POLL, at, False, -1, real=real)
+    if mode == 1:
+        return _run((K_NOTIF,), [g], at + 3 * POLL, at, False, -1, real=real)
+    if mode == 2:
+        return _run((), [], max(at, 1), None, False, -1, real=real)
+    return _run((K_RESULT,), [at], at + 3 * POLL, None, False, -1, real=real)
+
+
+def late_real(k, off, mode, g, lim=410):
+    return late(k, off, mode, g, lim, real=True)
